@@ -144,4 +144,6 @@ def handleLine (codecs : List Codec) (funcs : List Func) (line : String) : Strin
     | _ => "bad-line"
   | _ => "bad-line"
 
+def natArgs (vs : List Val) : Option (List Nat) := vs.mapM Val.nat?
+
 end Acra.Drv
